@@ -319,6 +319,7 @@ void AsyncPipe::Impl::threadFunc()
                             is_wake_for_timeup = false;
                             return true;
                         }
+                        CPP_TBOX_VERIF_POINT("ap.b.pred_false", 0, 0);
                         return false;
                     }
                 );
